@@ -90,6 +90,12 @@ func (p *Program) VerifyFunc(fc *FuncContract) (res *FuncResult) {
 			}
 		}
 	}
+	for name := range fc.AtCall {
+		if p.Funcs[name] == nil {
+			res.Err = fmt.Errorf("%s:%d: atcall names an unknown function %s", fc.File, fc.Line, name)
+			return
+		}
+	}
 	for at, m := range fc.UseEnsuresAt {
 		found := false
 		for _, e := range fc.Ensures {
